@@ -13,8 +13,8 @@ from .c16 import SOILS15
 
 PID = "C18"
 LEVEL = "model_checking"
-WITNESSES = ["deepened_profile", "not_deepened", "layered_soil", "texture_soil", "depth_interpolation", "thick_compartments_only", "non_uniform_thickness"]
-NONTRIVIAL = ["deepened_profile", "layered_soil", "texture_soil", "depth_interpolation", "thick_compartments_only", "non_uniform_thickness"]
+WITNESSES = ["deepened_profile", "not_deepened", "layered_soil", "texture_soil", "depth_interpolation", "thick_compartments_only", "non_uniform_thickness", "soil_object_reused"]
+NONTRIVIAL = ["deepened_profile", "layered_soil", "texture_soil", "depth_interpolation", "thick_compartments_only", "non_uniform_thickness", "soil_object_reused"]
 
 ZMAX = [0.5, 0.6, 1.0, 1.3, 1.5, 1.7, 1.8, 2.0, 2.3, 3.0]
 DZS = ["d12", "nonuni", "d15", "d30", "deep30"]
@@ -77,6 +77,13 @@ def scenarios(tier, seed=0):
                     if not q and (si + di + zi + ki) % 2 != 0 and not sn.startswith("c") and zi not in (0, 9):
                         continue
                     yield {"soil": sn, "dz": dz, "zmax": z, "iwc": kind}
+    # a Soil object that an earlier model (with a shallower-rooted crop) has already initialised
+    for si, (sn, ss) in enumerate(soils.items()):
+        if ss["type"] == "ac_TunisLocal" or (q and si % 3):
+            continue
+        for dz in ("d12", "nonuni"):
+            for z0, z in ((0.6, 2.3), (1.0, 1.7), (1.5, 3.0), (2.3, 1.0)):
+                yield {"soil": sn, "dz": dz, "zmax": z, "iwc": "PctDepth", "first_zmax": z0}
 
 
 def run(scn):
@@ -106,13 +113,29 @@ def run(scn):
     ref_soil = S.make_soil(ss)
     ref_df = ref_soil.profile.ffill()
     user_dz = np.array(ref_df.dz.values, dtype=float)
+    orig_dz = user_dz.copy()
     props = {}
     for _, r in ref_df.iterrows():
         props.setdefault(int(r.Layer), {k: float(r[k]) for k in ("th_dry", "th_wp", "th_fc", "th_s", "Ksat", "penetrability", "tau")})
     res["evals"] = 1
     try:
         with watchdog(40):
-            m = S.make_model(spec)
+            if scn.get("first_zmax") is not None:
+                # history: the user's Soil object was first used by a model whose crop roots to first_zmax
+                ent = S.make_entities(spec)
+                spec0 = copy.deepcopy(spec)
+                spec0["crop"]["kw"]["Zmax"] = scn["first_zmax"]
+                spec0["crop"]["kw"]["Zmin"] = min(0.3, scn["first_zmax"])
+                ent0 = S.make_entities(spec0)
+                ent0["soil"] = ent["soil"]
+                m0 = S.make_model(spec0, ent0)
+                m0._initialize()
+                wit["soil_object_reused"] = 1
+                # the reference for "deepening only grows compartments" is the profile the first model left behind
+                user_dz = np.array(ent["soil"].profile.dz.values, dtype=float)
+                m = S.make_model(spec, ent)
+            else:
+                m = S.make_model(spec)
             m._initialize()
     except Timeout as e:
         bad("profile-ends-below-zmax", {"timeout": str(e)}, "initialisation returns with a profile deeper than Zmax", hang=True)
@@ -130,7 +153,8 @@ def run(scn):
     bot = np.cumsum(dz)
     top = bot - dz
     mid = (top + bot) / 2
-    deepened = not (len(dz) == len(user_dz) and np.allclose(dz, np.round(user_dz, 2), atol=1e-9))
+    # "deepened" = differs from the thicknesses the user specified (possibly by an earlier model that used the same Soil object)
+    deepened = not (len(dz) == len(orig_dz) and np.allclose(dz, np.round(orig_dz, 2), atol=1e-9))
     hit("deepened_profile" if deepened else "not_deepened")
     if nl > 1:
         hit("layered_soil")
@@ -222,7 +246,7 @@ def describe(tier):
     return {
         "rule": "15 built-in soils + custom 1-3-layer soils from hydraulic values + a texture grid (sand {10,40,70} x clay {10,30,50} x organic matter {1,2.5,4}, two layers) x five "
                 "thickness lists (12x0.1; 4x0.05+6x0.1+5x0.2; 10x0.15; 5x0.3; 30x0.1) x every catalogue Zmax {0.5..3.0} x initial-water types {Prop,Pct,Num} x {Layer,Depth}"
-                + (" (1/6 of the lattice in the quick tier)" if tier == "quick" else " (half of the lattice plus all extremes)") + "; each instance is one real _initialize(); a reference builder recomputes "
+                + (" (1/6 of the lattice in the quick tier)" if tier == "quick" else " (half of the lattice plus all extremes)") + "; plus Soil objects that an earlier model with a shallower- or deeper-rooted crop has already initialised; each instance is one real _initialize(); a reference builder recomputes "
                 "bottoms/tops/mid-depths from the thicknesses, the layer map from the untouched user soil, the ordering of the hydraulic properties, the required depth, and theta at step 0.",
         "bound": "lattice at the stated resolution; one initialisation per lattice point",
         "exhaustive": True,
